@@ -79,7 +79,7 @@ func verifHarness_C19_date_write() {
 // ranges time out and are reported as a reduced bound, see DESIGN.md)
 func verifC19SecRange() int64 {
 	if verifThorough() {
-		return 1 << 31
+		return 1 << 36
 	}
 	return 1 << 24
 }
